@@ -89,6 +89,9 @@ pub struct ScenarioConfig {
     /// include the bookkeeping snapshot (C20) in every post-state
     #[serde(default = "yes")]
     pub book: bool,
+    /// fee table (short keys, see `fees_from_json`); absent = all zero
+    #[serde(default)]
+    pub fees: Value,
 }
 fn yes() -> bool {
     true
@@ -127,6 +130,43 @@ fn net_in_request(s: &str) -> NetworkInRequest {
         "Regtest" => NetworkInRequest::Regtest,
         other => panic!("bad network {other}"),
     }
+}
+
+const FEE_KEYS: [&str; 12] = ["ub", "ur", "um", "bal", "balm", "pct", "pctm", "hb", "hr", "hm", "sb", "sp"];
+
+pub fn fees_from_json(v: &Value) -> ic_btc_interface::Fees {
+    let g = |k: &str| v.get(k).and_then(|x| x.as_u64()).unwrap_or(0) as u128;
+    ic_btc_interface::Fees {
+        get_utxos_base: g("ub"),
+        get_utxos_cycles_per_ten_instructions: g("ur"),
+        get_utxos_maximum: g("um"),
+        get_balance: g("bal"),
+        get_balance_maximum: g("balm"),
+        get_current_fee_percentiles: g("pct"),
+        get_current_fee_percentiles_maximum: g("pctm"),
+        get_block_headers_base: g("hb"),
+        get_block_headers_cycles_per_ten_instructions: g("hr"),
+        get_block_headers_maximum: g("hm"),
+        send_transaction_base: g("sb"),
+        send_transaction_per_byte: g("sp"),
+    }
+}
+
+pub fn fees_to_json(f: &ic_btc_interface::Fees) -> Value {
+    let c = |x: u128| -> Value {
+        if x < (1u128 << 31) {
+            json!(x as u64)
+        } else {
+            json!(x.to_string())
+        }
+    };
+    json!({
+        "ub": c(f.get_utxos_base), "ur": c(f.get_utxos_cycles_per_ten_instructions), "um": c(f.get_utxos_maximum),
+        "bal": c(f.get_balance), "balm": c(f.get_balance_maximum),
+        "pct": c(f.get_current_fee_percentiles), "pctm": c(f.get_current_fee_percentiles_maximum),
+        "hb": c(f.get_block_headers_base), "hr": c(f.get_block_headers_cycles_per_ten_instructions), "hm": c(f.get_block_headers_maximum),
+        "sb": c(f.send_transaction_base), "sp": c(f.send_transaction_per_byte),
+    })
 }
 
 fn flag(b: bool) -> Flag {
@@ -228,8 +268,10 @@ impl Exec {
             syncing: Some(flag(sc.config.syncing)),
             disable_api_if_not_fully_synced: Some(flag(sc.config.gate)),
             lazily_evaluate_fee_percentiles: Some(flag(sc.config.lazy)),
+            fees: Some(fees_from_json(&sc.config.fees)),
             ..Default::default()
         });
+        let _ = FEE_KEYS;
         e
     }
 
@@ -265,7 +307,7 @@ impl Exec {
         json!({
             "ev": "universe",
             "cfg": {"net": self.cfg.net, "thr": self.cfg.thr, "api": self.cfg.api, "syncing": self.cfg.syncing,
-                    "gate": self.cfg.gate, "lazy": self.cfg.lazy},
+                    "gate": self.cfg.gate, "lazy": self.cfg.lazy, "fees": fees_to_json(&fees_from_json(&self.cfg.fees))},
             "book": self.cfg.book,
             "naddr": self.uni.addr_strings.len(),
             "uni": {"par": par, "diff": diff, "time": time, "btx": btx, "tin": tin, "tout": tout, "vsz": vsz},
@@ -574,6 +616,7 @@ impl Exec {
                 "syncing": s.syncing_state.syncing == Flag::Enabled,
                 "gate": s.disable_api_if_not_fully_synced == Flag::Enabled,
                 "lazy": s.lazily_evaluate_fee_percentiles == Flag::Enabled,
+                "fees": fees_to_json(&s.fees),
             });
             let st = &s.syncing_state;
             let cnt = json!({
@@ -681,6 +724,29 @@ impl Exec {
         }
     }
 
+    /// Sets the instruction counter that the call will observe and the cycles attached to it.
+    fn arm(&self, cmd: &Value) -> (u64, i64) {
+        let instr = cmd["instr"].as_u64().unwrap_or(0);
+        rt::set_performance_counter_step(0);
+        rt::set_performance_counter(instr);
+        let avail = cmd["avail"].as_i64().unwrap_or(-1);
+        rt::set_cycles_available(if avail >= 0 { Some(avail as u128) } else { None });
+        (instr, avail)
+    }
+
+    fn disarm(&self) {
+        rt::set_performance_counter(0);
+        rt::set_cycles_available(None);
+    }
+
+    fn cyc_json(x: u128) -> Value {
+        if x < (1u128 << 31) {
+            json!(x as u64)
+        } else {
+            json!(x.to_string())
+        }
+    }
+
     fn classify_trap(msg: &str) -> &'static str {
         if msg.starts_with("Bitcoin API is disabled") {
             "api_disabled"
@@ -747,6 +813,7 @@ impl Exec {
         let c = cmd["mc"].as_i64().unwrap_or(-1);
         let limit = cmd["limit"].as_u64().unwrap_or(0) as usize;
         let mode = cmd["mode"].as_str().unwrap_or("update").to_string();
+        let (instr, avail) = self.arm(cmd);
         let before = rt::cycles_accepted();
         let mut filter = if c >= 0 {
             Some(UtxosFilterInRequest::MinConfirmations(c as u32))
@@ -790,8 +857,9 @@ impl Exec {
             }
         };
         let cyc = rt::cycles_accepted() - before;
+        self.disarm();
         json!({"ev": "q", "ep": "utxos", "ac": ac, "addr": id, "net": net, "mc": c, "limit": limit, "mode": mode,
-               "ans": ans, "cyc": cyc.to_string()})
+               "ans": ans, "cyc": Self::cyc_json(cyc), "instr": instr, "avail": avail})
     }
 
     fn q_balance(&mut self, cmd: &Value) -> Value {
@@ -799,6 +867,7 @@ impl Exec {
         let net = cmd["net"].as_str().unwrap_or(&self.cfg.net).to_string();
         let c = cmd["mc"].as_i64().unwrap_or(-1);
         let mode = cmd["mode"].as_str().unwrap_or("update").to_string();
+        let (instr, avail) = self.arm(cmd);
         let before = rt::cycles_accepted();
         let req = GetBalanceRequest {
             address: addr,
@@ -825,13 +894,16 @@ impl Exec {
             }
         };
         let cyc = rt::cycles_accepted() - before;
-        json!({"ev": "q", "ep": "balance", "ac": ac, "addr": id, "net": net, "mc": c, "mode": mode, "ans": ans, "cyc": cyc.to_string()})
+        self.disarm();
+        json!({"ev": "q", "ep": "balance", "ac": ac, "addr": id, "net": net, "mc": c, "mode": mode, "ans": ans,
+               "cyc": Self::cyc_json(cyc), "instr": instr, "avail": avail})
     }
 
     fn q_headers(&mut self, cmd: &Value) -> Value {
         let net = cmd["net"].as_str().unwrap_or(&self.cfg.net).to_string();
         let s = cmd["s"].as_u64().unwrap() as u32;
         let e = cmd["e"].as_i64().unwrap_or(-1);
+        let (instr, avail) = self.arm(cmd);
         let before = rt::cycles_accepted();
         let req = GetBlockHeadersRequest {
             start_height: s,
@@ -873,11 +945,13 @@ impl Exec {
             }
         };
         let cyc = rt::cycles_accepted() - before;
-        json!({"ev": "q", "ep": "headers", "net": net, "s": s, "e": e, "ans": ans, "cyc": cyc.to_string()})
+        self.disarm();
+        json!({"ev": "q", "ep": "headers", "net": net, "s": s, "e": e, "ans": ans, "cyc": Self::cyc_json(cyc), "instr": instr, "avail": avail})
     }
 
     fn q_fees(&mut self, cmd: &Value) -> Value {
         let net = cmd["net"].as_str().unwrap_or(&self.cfg.net).to_string();
+        let (instr, avail) = self.arm(cmd);
         let before = rt::cycles_accepted();
         let req = GetCurrentFeePercentilesRequest {
             network: net_in_request(&net),
@@ -888,8 +962,10 @@ impl Exec {
             Ok(v) => json!({"k": "ok", "vals": v}),
         };
         let cyc = rt::cycles_accepted() - before;
+        self.disarm();
         // the fee query may fill the cache: log the post-state
-        json!({"ev": "q", "ep": "fees", "net": net, "ans": ans, "cyc": cyc.to_string(), "post": self.project()})
+        json!({"ev": "q", "ep": "fees", "net": net, "ans": ans, "cyc": Self::cyc_json(cyc), "instr": instr, "avail": avail,
+               "post": self.project()})
     }
 
     fn q_info(&mut self) -> Value {
@@ -910,11 +986,119 @@ impl Exec {
             Ok(c) => json!({"k": "ok", "cfg": {
                 "net": c.network.to_string(), "thr": c.stability_threshold as u64, "api": c.api_access == Flag::Enabled,
                 "syncing": c.syncing == Flag::Enabled, "gate": c.disable_api_if_not_fully_synced == Flag::Enabled,
-                "lazy": c.lazily_evaluate_fee_percentiles == Flag::Enabled},
-                "fees": format!("{:?}", c.fees), "burn": c.burn_cycles == Flag::Enabled,
+                "lazy": c.lazily_evaluate_fee_percentiles == Flag::Enabled, "fees": fees_to_json(&c.fees)},
+                "burn": c.burn_cycles == Flag::Enabled,
                 "watchdog": format!("{:?}", c.watchdog_canister), "source": c.blocks_source.to_string()}),
         };
         json!({"ev": "q", "ep": "config", "ans": ans})
+    }
+
+    // ------------------------------------------------------------------ send_transaction (C19)
+
+    /// Builds a transaction from a small description, serialises it and applies a mutation.
+    fn tx_payload(&self, cmd: &Value) -> (Vec<u8>, String) {
+        use bitcoin::consensus::Encodable;
+        let d = &cmd["tx"];
+        let nin = d["nin"].as_u64().unwrap_or(1) as usize;
+        let nout = d["nout"].as_u64().unwrap_or(1) as usize;
+        let w = d["w"].as_bool().unwrap_or(false);
+        let salt = d["salt"].as_u64().unwrap_or(0);
+        let h = |tag: &str, i: usize| -> [u8; 32] {
+            use bitcoin::hashes::{sha256, Hash};
+            let mut data = tag.as_bytes().to_vec();
+            data.extend_from_slice(&salt.to_le_bytes());
+            data.extend_from_slice(&(i as u64).to_le_bytes());
+            sha256::Hash::hash(&data).to_byte_array()
+        };
+        let input: Vec<bitcoin::TxIn> = (0..nin)
+            .map(|i| {
+                let mut witness = bitcoin::Witness::new();
+                if w && (i % 2 == 0) {
+                    witness.push(h("w", i)[..(i % 30) + 1].to_vec());
+                }
+                bitcoin::TxIn {
+                    previous_output: bitcoin::OutPoint { txid: bitcoin::Txid::from_byte_array(h("prev", i)), vout: i as u32 },
+                    script_sig: bitcoin::ScriptBuf::from_bytes(h("sig", i)[..(salt as usize + i) % 32].to_vec()),
+                    sequence: bitcoin::Sequence((salt as u32).wrapping_mul(31).wrapping_add(i as u32)),
+                    witness,
+                }
+            })
+            .collect();
+        let output: Vec<bitcoin::TxOut> = (0..nout)
+            .map(|i| bitcoin::TxOut {
+                value: bitcoin::Amount::from_sat(salt * 1000 + i as u64),
+                script_pubkey: bitcoin::ScriptBuf::from_bytes(h("spk", i)[..(salt as usize * 7 + i) % 33].to_vec()),
+            })
+            .collect();
+        let tx = bitcoin::Transaction {
+            version: bitcoin::transaction::Version((salt % 3) as i32),
+            lock_time: bitcoin::absolute::LockTime::from_consensus((salt as u32) * 17),
+            input,
+            output,
+        };
+        let mut bytes = vec![];
+        tx.consensus_encode(&mut bytes).unwrap();
+        let m = &cmd["mut"];
+        let kind = m["k"].as_str().unwrap_or("exact").to_string();
+        let out = match kind.as_str() {
+            "exact" => bytes,
+            "trunc" => {
+                let n = (m["n"].as_u64().unwrap_or(1) as usize).clamp(1, bytes.len());
+                bytes[..bytes.len() - n].to_vec()
+            }
+            "extend" => {
+                let extra = hex::decode(m["hex"].as_str().unwrap_or("00")).unwrap();
+                let mut v = bytes;
+                v.extend_from_slice(&extra);
+                v
+            }
+            "prepend" => {
+                let mut v = hex::decode(m["hex"].as_str().unwrap_or("00")).unwrap();
+                v.extend_from_slice(&bytes);
+                v
+            }
+            "flip" => {
+                let mut v = bytes;
+                let bit = m["bit"].as_u64().unwrap_or(0) as usize % (v.len() * 8);
+                v[bit / 8] ^= 1 << (bit % 8);
+                v
+            }
+            "garbage" => {
+                let n = m["len"].as_u64().unwrap_or(10) as usize;
+                (0..n).map(|i| h("garbage", i / 32)[i % 32]).collect()
+            }
+            "empty" => vec![],
+            other => panic!("unknown mutation {other}"),
+        };
+        (out, kind)
+    }
+
+    fn send_tx(&mut self, cmd: &Value) -> Value {
+        let net = cmd["net"].as_str().unwrap_or(&self.cfg.net).to_string();
+        let (payload, kind) = self.tx_payload(cmd);
+        let valid = crate::txparse::is_exactly_one_transaction(&payload);
+        let (_instr, avail) = self.arm(cmd);
+        rt::take_sent_transactions();
+        let before = rt::cycles_accepted();
+        let req = ic_btc_interface::SendTransactionRequest {
+            transaction: payload.clone(),
+            network: net_in_request(&net),
+        };
+        let r = catch_unwind(AssertUnwindSafe(|| block_on(ic_btc_canister::send_transaction(req))));
+        let cyc = rt::cycles_accepted() - before;
+        self.disarm();
+        let sent = rt::take_sent_transactions();
+        let ans = match r {
+            Err(_) => Self::trap_answer(),
+            Ok(Ok(())) => json!({"k": "ok"}),
+            Ok(Err(e)) => json!({"k": "err", "err": match e {
+                ic_btc_interface::SendTransactionError::MalformedTransaction => "MalformedTransaction",
+                ic_btc_interface::SendTransactionError::QueueFull => "QueueFull",
+            }}),
+        };
+        let same = sent.len() == 1 && sent[0].transaction == payload && sent[0].network.to_string() == self.cfg.net;
+        json!({"ev": "send_tx", "net": net, "cls": if valid { "valid" } else { "invalid" }, "mut": kind, "len": payload.len(),
+               "ans": ans, "fwd": sent.len(), "fwdSame": same, "cyc": Self::cyc_json(cyc), "avail": avail, "post": self.project()})
     }
 
     // ------------------------------------------------------------------ paginated walks
@@ -954,6 +1138,7 @@ impl Exec {
             api_access: d.get("api").and_then(|v| v.as_bool()).map(flag),
             disable_api_if_not_fully_synced: d.get("gate").and_then(|v| v.as_bool()).map(flag),
             lazily_evaluate_fee_percentiles: d.get("lazy").and_then(|v| v.as_bool()).map(flag),
+            fees: d.get("fees").map(fees_from_json),
             ..Default::default()
         }
     }
@@ -1083,6 +1268,7 @@ impl Exec {
                 let dd = if has { d } else { json!({"nop": true}) };
                 vec![json!({"ev": "upgrade", "d": dd, "out": "ok", "post": self.project()})]
             }
+            "send_tx" => vec![self.send_tx(cmd)],
             "offer" => {
                 self.offers.push_back(cmd["initial"].clone());
                 vec![]
